@@ -42,6 +42,8 @@ var zzC19Scripts = []string{
 	// a run that ends in a panic inside a function leaves nothing behind that changes the next run
 	"function g(x) { if (x >= 0) { panic(\"no\"); } return x; } y = 5; return g(A) + y;",
 	"function f(x) { return x % (B - B); } y = 7; return f(A) + y;",
+	// a key given twice whose values are themselves hash literals
+	"h = {\"a\": {\"x\": 1, \"y\": 2}, \"a\": {\"x\": 3, \"y\": 4}}; return string(h);",
 	// (last: the 4-key script multiplies permutations - thorough only)
 	"h = {A: \"x\", B: \"y\", \"5\": \"z\", 2.5: \"w\"}; r = \"\"; foreach k, v in h { r = r + v; } return r;",
 }
@@ -135,7 +137,7 @@ func zzC19Body(sv *zzsv.T) {
 	src := zzC19Scripts[k]
 	sv.Note("script", src)
 	var a, b int64
-	if k == 14 || k == 21 {
+	if k == 14 || k == 22 {
 		// integer keys of one and two digits next to string/float keys:
 		// representative pairs (symbolic keys would have to be rendered and
 		// ordered digit by digit under every permutation)
@@ -150,7 +152,7 @@ func zzC19Body(sv *zzsv.T) {
 		sv.Assume(b >= 0)
 		sv.Assume(b <= 3)
 	}
-	sv.Region("duplicate_key_in_literal", k == 5 || k == 6 || ((k == 7 || k == 14 || k == 21) && a == b))
+	sv.Region("duplicate_key_in_literal", k == 5 || k == 6 || ((k == 7 || k == 14 || k == 22) && a == b))
 	sv.Region("keys_printing_alike", k == 3 || k == 4)
 	sv.MapOrderNondet(false)
 	r1 := zzC19Do(sv, src, a, b, k == 15 || k == 16) // reference: insertion order everywhere
